@@ -33,7 +33,7 @@ def init_arguments(ev):
     return d
 
 
-def decode_store(ev, allow_raw=False):
+def decode_store(ev, allow_raw=False, allow_fxp=False):
     if ev.op not in STORE_OPS or ev.kind != 'method':
         return None
     si = StoreInfo()
@@ -67,7 +67,20 @@ def decode_store(ev, allow_raw=False):
     if si.carrier is None:
         return None
     if type(si.carrier).__name__ == 'Fxp':
-        return None           # a conversion: C10
+        if not allow_fxp:
+            return None           # a conversion: C10
+        src = None
+        for o, p in zip(ev.operands, ev.pre):
+            if o is si.carrier:
+                src = p
+        if src is None or src.is_complex or src.imag is not None or src.scaled or src.scale != 1 or src.bias != 0:
+            raise Unsupported('Fxp source complex, scaled or not initialised')
+        if si.raw:
+            raise Unsupported('raw store')
+        si.pre, si.post = _recv_snaps(ev)
+        lsb = F(2) ** (-src.n_frac)
+        si.values, si.shape, si.is_complex = [k * lsb for k in src.codes], tuple(src.shape), False
+        return si
     if si.raw and not allow_raw:
         raise Unsupported('raw store')
     si.pre, si.post = _recv_snaps(ev)
